@@ -13,6 +13,9 @@ from ..drive import asm, pmap
 from ..tlc import run_tlc, require_ok
 
 BAD_CHARS = ["!", "_", "я", "&", "#"]
+# characters outside the alphabet that Unicode case mapping folds INTO it (dotless i -> I, long s -> S, Kelvin sign -> K / k,
+# ligature st -> "ST", sharp s -> "SS", dotted capital I): Codec.tla's "bad" item all the same - an error is due
+FOLDING_CHARS = ["\u0131", "\u017f", "\u212a", "\ufb06", "\ufb05", "\u00df", "\u0130", "\ufb00"]
 
 
 def cfg(mode, max_items, invs):
@@ -148,6 +151,21 @@ def main(run):
             run.violation(f"rad50 string: {bad[0]!r} predicted ok={bad[1]} words={bad[2]} but outcome={bad[3]} code={bad[4]} exc={bad[5]} reports={bad[6]}",
                           {"line": bad[0], "predicted_ok": bad[1], "predicted_words": bad[2], "outcome": bad[3], "code": bad[4]},
                           files={"case.mac": bad[0] + "\n"})
+    # the "bad" item rendered with every case-folding look-alike, in every position of a group, for '.rad50' and for '^R'
+    ftasks = []
+    for ch in FOLDING_CHARS:
+        for pre, post in (("", ""), ("A", ""), ("AB", ""), ("", "Z"), ("A", "Z"), ("ABC", "")):
+            ftasks.append((f".rad50 /{pre}{ch}{post}/", False, []))
+            if len(pre) < 3:
+                ftasks.append((f".word ^R{pre}{ch}{post}", False, []))
+    for bad in pmap(run_string, ftasks):
+        if bad is not None:
+            run.violation(f"rad50: {bad[0]!r} holds a character outside the alphabet (one that Unicode case mapping folds into it): an error is due, "
+                          f"but outcome={bad[3]} code={bad[4]} exc={bad[5]} reports={bad[6]}",
+                          {"line": bad[0], "outcome": bad[3], "code": bad[4], "exc": bad[5]}, files={"case.mac": bad[0] + "\n"},
+                          tags=["shape:rad50-case-folding-character"])
+    tasks += ftasks
+    run.note("case_folding_lookalike_cases", len(ftasks))
     run.add_eval(len(tasks))
     for t in tasks:
         run.add_nontrivial(t[0])
